@@ -624,6 +624,12 @@ func (p *F) nonNegAtom(a string) bool {
 	if _, uns := intBits(v.Type()); uns {
 		return true
 	}
+	// copy returns the number of elements copied
+	if call, ok := v.(*ssa.Call); ok {
+		if bi, isB := call.Call.Value.(*ssa.Builtin); isB && bi.Name() == "copy" {
+			return true
+		}
+	}
 	if cv, ok := v.(*ssa.Convert); ok && isInt(cv.X.Type()) {
 		if fb, fu := intBits(cv.X.Type()); fu && fb <= 32 {
 			if tb, _ := intBits(cv.Type()); tb > fb {
@@ -791,6 +797,51 @@ func (p *F) loopLemmas() {
 		isLatch := map[*ssa.BasicBlock]bool{}
 		for _, b := range l.Latches {
 			isLatch[b] = true
+		}
+		// copy cursor: c starts at 0 and every back edge carries c + copy(dst[c:], ..): copy moves at most len(dst)-c
+		// elements, so c <= len(dst) holds at the header (and c >= 0 by the monotone lemma below)
+		for _, ph := range phis {
+			var dst ssa.Value
+			fits := true
+			for i, pred := range h.Preds {
+				if !isLatch[pred] {
+					if k, ok := ph.Edges[i].(*ssa.Const); !ok || k.Value == nil || k.Value.ExactString() != "0" {
+						fits = false
+					}
+					continue
+				}
+				add, ok := ph.Edges[i].(*ssa.BinOp)
+				if !ok || add.Op != token.ADD {
+					fits = false
+					continue
+				}
+				var cp *ssa.Call
+				for _, pair := range [][2]ssa.Value{{add.X, add.Y}, {add.Y, add.X}} {
+					if pair[0] == ssa.Value(ph) {
+						cp, _ = pair[1].(*ssa.Call)
+					}
+				}
+				if cp == nil {
+					fits = false
+					continue
+				}
+				bi, isB := cp.Call.Value.(*ssa.Builtin)
+				sl, isS := cp.Call.Args[0].(*ssa.Slice)
+				if !isB || bi.Name() != "copy" || !isS || sl.Low != ssa.Value(ph) || sl.High != nil || (dst != nil && dst != sl.X) {
+					fits = false
+					continue
+				}
+				if _, isSlice := sl.X.Type().Underlying().(*types.Slice); !isSlice {
+					fits = false
+					continue
+				}
+				dst = sl.X
+			}
+			if fits && dst != nil {
+				if ins, isIns := dst.(ssa.Instruction); !isIns || !l.Blocks[ins.Block()] {
+					p.lemma[h] = append(p.lemma[h], Fact{L: p.LenOf(dst).Add(p.LinOf(ph), -1), Why: "copy cursor " + ph.Name() + " <= len of the slice it copies into"})
+				}
+			}
 		}
 		// monotone phi: entry value e0, every back-edge value >= phi  =>  phi >= e0 ; <= analogous
 		for _, ph := range phis {
